@@ -115,3 +115,8 @@ mod tests {
         assert_eq!(f(Eq, Eq), Not);
     }
 }
+
+// Verification hook (see /verif/DESIGN.md §2.1): only seen by kani-compiler.
+#[cfg(kani)]
+#[path = "/verif/harness/incrate/precedence.rs"]
+mod verif_kani;
